@@ -188,6 +188,17 @@ def effSteps (S : Snap) (moves : Id → Bool) : State → List Nat → Nat
   | st, i :: rest =>
     (if i < st.pending.length then 1 else 0) + effSteps S moves (processSlot S moves st i) rest
 
+/-- the measure at the start: every allocated object owes `nfields + 1`, plus the root slots -/
+def initialWork (S : Snap) (B : Nat) : Nat :=
+  sumTo (fun i => match S.heap i with | some o => o.fields.length + 1 | none => 0) B + S.roots.length
+
+/-- A deterministic reference collector for a heap whose ids are `< B` (used by the monitor): the
+schedule "always take the first pending slot", run for `initialWork` steps — which drains the work
+list (`Props/C01Algo.lean: collect_finished`).  By `trace_schedule_independent` every other schedule
+gives the same heap up to the names of the to-objects. -/
+def collect (S : Snap) (moves : Id → Bool) (B : Nat) : State :=
+  exec S moves (init S) (List.replicate (initialWork S B) 0)
+
 /-! ## The result of a finished closure, as a heap again -/
 
 /-- What a snapshot reference becomes: `null ↦ null`, `some x ↦ new (fwd x)`. -/
